@@ -17,7 +17,7 @@ from pyvc.vc import Contract
 CONTRACTS = []
 _T = k2.template_sources()['emit_func_convert_and_escape']
 SRC = (_T['source'], 'func')
-CLASS = '&<>"\''
+CLASS = k2.escape_class()      # read off the pattern the compiler emits for __re_needs_escape
 
 
 def _needs_escape(I, args, kwargs, node):
@@ -25,6 +25,9 @@ def _needs_escape(I, args, kwargs, node):
     the subject contains one of the five characters.  In the @char instance the subject stands
     for one character of a longer string, so a match may be due to another character."""
     v = args[0]
+    if CLASS is None:
+        from pyvc.values import Unsupported
+        raise Unsupported('__re_needs_escape is not the search method of a plain character class')
     if isinstance(v, VAny):
         if not I.decide(z3.Or(Val.is_str(v.t), Val.is_tok(v.t)), 're-subject-is-str'):
             raise Raised(VExc(TypeError, [VStr('expected string or bytes-like object')]))
@@ -63,6 +66,13 @@ def _translate(I, args, kwargs, node):
 
 
 def env():
+    e = {k: VConc(v) for k, v in k2.prelude_objects().items()
+         if not isinstance(v, type(k2)) and k != '__re_needs_escape'}
+    e.update(_env())
+    return e
+
+
+def _env():
     return {
         'str': VConc(str), 'type': VConc(type), 'encoded': VConc(bytes),
         '__re_needs_escape': VFunc('__re_needs_escape', impl=_needs_escape),
